@@ -47,6 +47,10 @@ struct SDecl {
     /// single source written `X as v` (no sequence operators); .. and X is an earlier declared stream
     aliased: bool,
     aliased_derived: bool,
+    /// `.watermark(out_of_order: Ns)` [+ `.allowed_lateness(Ms)`]
+    wm: Option<(i64, Option<i64>)>,
+    /// per referenced name: declared (as a stream) before this declaration?
+    resolved: Vec<bool>,
 }
 
 #[derive(Clone, Debug)]
@@ -96,7 +100,7 @@ struct Spec {
 
 const KINDS: &[(&str, u64)] = &[
     ("filter", 10), ("femit", 14), ("emit", 12), ("pass", 4), ("cwin", 8), ("cwin_noemit", 4), ("twin", 5),
-    ("swin", 3), ("pwin", 4), ("seq", 10), ("seq_noemit", 3), ("seq3", 3), ("seq_plain", 3), ("join", 8), ("merge", 5), ("proc", 5), ("proc_emit", 2),
+    ("swin", 3), ("pwin", 4), ("seq", 10), ("seq_noemit", 3), ("seq3", 3), ("seq_plain", 3), ("wm", 7), ("wm_nolate", 2), ("join", 8), ("merge", 5), ("proc", 5), ("proc_emit", 2),
     ("proc1", 2), ("distinct", 3), ("limit", 3), ("select", 3), ("having", 3),
 ];
 
@@ -129,7 +133,7 @@ fn render(sp: &Spec, decl_before: &[SDecl]) -> SDecl {
     let (c, n, dd) = (sp.c, sp.n, sp.d);
     let kind = sp.kind.clone();
     let mut d = SDecl { name: sp.name.clone(), body: String::new(), subs: vec![s0.clone()], prim: vec![s0.clone()],
-        join: false, proc_: false, kind: kind.clone(), nops: 0, stateless: false, rsrc: Some(s0.clone()), refs: vec![s0.clone()], aliased: false, aliased_derived: false };
+        join: false, proc_: false, kind: kind.clone(), nops: 0, stateless: false, rsrc: Some(s0.clone()), refs: vec![s0.clone()], aliased: false, aliased_derived: false, wm: None, resolved: vec![] };
     // `resolve_event_type` of `compile_ops_with_sequences`: a sequence step that names an already
     // registered stream is subscribed under that stream's own source (one level)
     let resolve = |n: &String| -> String {
@@ -148,6 +152,9 @@ fn render(sp: &Spec, decl_before: &[SDecl]) -> SDecl {
         "femit" => { d.body = format!("{s0}\n    .where(x > {c})\n    .emit(k: k, x: x)"); d.nops = 2; d.stateless = true; }
         "emit" => { d.body = format!("{s0}\n    .emit(k: k, x: x + {dd})"); d.nops = 1; d.stateless = true; }
         "pass" => { d.body = s0.to_string(); d.nops = 0; d.stateless = true; }
+        // event-time settings: out-of-orderness of the source's watermark (n-2 = 0..) and allowed lateness (d) in seconds
+        "wm" => { d.body = format!("{s0}\n    .watermark(out_of_order: {}s)\n    .allowed_lateness({}s)\n    .where(x > {c})\n    .emit(k: k, x: x)", (n - 2).max(0), dd.max(0)); d.nops = 2; d.stateless = true; d.wm = Some(((n - 2).max(0), Some(dd.max(0)))); }
+        "wm_nolate" => { d.body = format!("{s0}\n    .watermark(out_of_order: {}s)\n    .emit(k: k, x: x)", (n - 2).max(0)); d.nops = 1; d.stateless = true; d.wm = Some(((n - 2).max(0), None)); }
         "cwin" => { d.body = format!("{s0}\n    .window({n})\n    .aggregate(n: count(), s: sum(x))\n    .emit(k: n, x: s)"); d.nops = 3; }
         "cwin_noemit" => { d.body = format!("{s0}\n    .window({n})\n    .aggregate(k: count(), x: sum(x))"); d.nops = 2; }
         "twin" => { d.body = format!("{s0}\n    .window({}s)\n    .aggregate(n: count(), s: max(x))\n    .emit(k: n, x: s)", n + 1); d.nops = 3; }
@@ -216,6 +223,7 @@ fn render(sp: &Spec, decl_before: &[SDecl]) -> SDecl {
     d.subs = dedup(&d.subs);
     d.prim = dedup(&d.prim);
     d.refs = dedup(&d.refs);
+    d.resolved = d.refs.iter().map(|r| decl_before.iter().any(|p| &p.name == r)).collect();
     if sp.alias && !kind.starts_with("seq") && kind != "join" && kind != "merge" {
         d.aliased = true;
         d.aliased_derived = decl_before.iter().any(|p| p.name == s0src);
@@ -352,7 +360,8 @@ fn base_ts() -> chrono::DateTime<chrono::Utc> {
 fn gen_events(rng: &mut Rng, n: usize) -> Vec<Event> {
     let mut t = 0i64;
     (0..n).map(|_| {
-        t += *rng.pick(&[0i64, 1000, 1000, 1000, 2500, 6000]);
+        t += *rng.pick(&[0i64, 1000, 1000, 1000, 2500, 6000, 1000, 2500, -1500, -3000, -6000]);
+        if t < 0 { t = 0; }
         let ty = *rng.pick(INPUT_TYPES);
         Event::new_at(ty, base_ts() + chrono::Duration::milliseconds(t))
             .with_field("k", Value::Int(rng.range(0, 1)))
@@ -416,6 +425,8 @@ impl Path {
 
 struct Runner {
     rt: tokio::runtime::Runtime,
+    /// verdicts of the late-data gate (a/d/s per external event) since the last `take_gate`
+    gate: std::cell::RefCell<String>,
 }
 
 struct Live {
@@ -424,9 +435,11 @@ struct Live {
 }
 
 impl Runner {
-    fn new() -> Self { Runner { rt: tokio::runtime::Builder::new_current_thread().build().unwrap() } }
+    fn new() -> Self { Runner { rt: tokio::runtime::Builder::new_current_thread().build().unwrap(), gate: Default::default() } }
 
     #[allow(dead_code)]
+    fn take_gate(&self) -> String { std::mem::take(&mut *self.gate.borrow_mut()) }
+
     fn load(&self, vpl: &str) -> Result<Live, String> {
         let program = varpulis_parser::parse(vpl).map_err(|e| format!("parse: {}", e))?;
         self.load_program(&program)
@@ -452,12 +465,24 @@ impl Runner {
             Path::Sync => live.engine.process_batch_sync(chunk),
             Path::Shared => self.rt.block_on(live.engine.process_batch_shared(chunk.into_iter().map(Arc::new).collect())),
         });
+        self.gate.borrow_mut().push_str(&verif::take_gate());
         let calls = verif::take();
         r?;
         let mut out = Vec::new();
         while let Ok(e) = live.rx.try_recv() { out.push(e); }
         Ok((out, calls))
     }
+}
+
+/// the events the late-data gate admitted (verdict `a`); all of them if the verdict string does not fit
+fn admitted(events: &[Event], gate: &str) -> Vec<Event> {
+    if gate.chars().count() != events.len() { return events.to_vec(); }
+    events.iter().zip(gate.chars()).filter(|(_, g)| *g == 'a').map(|(e, _)| e.clone()).collect()
+}
+
+/// `.watermark` registrations of a program: (source, out-of-orderness), in declaration order
+fn wm_sources(p: &Prog) -> Vec<(String, i64)> {
+    p.streams.iter().filter_map(|d| d.wm.map(|(ooo, _)| (d.prim.first().cloned().unwrap_or_default(), ooo))).collect()
 }
 
 fn split_chunks(events: &[Event], sizes: &[usize]) -> Vec<Vec<Event>> {
@@ -509,7 +534,7 @@ fn emit_prog_lines(ctx: &mut Ctx, it: &mut Intern, word: &str, prog: &Prog) {
         let mut h: u64 = 1469598103934665603;
         for b in d.body.bytes() { h = (h ^ b as u64).wrapping_mul(1099511628211); }
         let refs: Vec<String> = d.refs.iter().map(|s| it.ty(s).to_string()).collect();
-        ctx.directive(&format!("{} {} subs={} prim={} join={} proc={} nops={} def={} refs={}", word, id, l(subs), l(prim), d.join as u8, d.proc_ as u8, d.nops, h % 1_000_000_007, l(refs)));
+        ctx.directive(&format!("{} {} subs={} prim={} join={} proc={} nops={} def={} refs={} res={}", word, id, l(subs), l(prim), d.join as u8, d.proc_ as u8, d.nops, h % 1_000_000_007, l(refs), l(d.resolved.iter().map(|b| (*b as u8).to_string()).collect())));
     }
 }
 
@@ -558,6 +583,7 @@ fn scenario_paths(ctx: &mut Ctx, runner: &Runner, sc: usize, prop: &str) {
     }
     let inputs = it.evs(events.iter());
     let mut outs_by_path: Vec<(Path, String)> = Vec::new();
+    let mut gate_by_path: Vec<(Path, String)> = Vec::new();
     let paths = [Path::Event, Path::Batch, Path::Sync, Path::Shared];
     for path in paths {
         let sizes = if path == Path::Event { vec![events.len()] } else { gen_split(&mut ctx.rng, events.len()) };
@@ -565,6 +591,7 @@ fn scenario_paths(ctx: &mut Ctx, runner: &Runner, sc: usize, prop: &str) {
         let mut all_out: Vec<Event> = Vec::new();
         let mut all_calls: Vec<verif::StreamCall> = Vec::new();
         let mut failed = None;
+        runner.take_gate();
         for chunk in split_chunks(&events, &sizes) {
             match crate::util::catch(std::panic::AssertUnwindSafe(|| runner.feed(&mut live, path, chunk))) {
                 Ok(Ok((o, c))) => { all_out.extend(o); all_calls.extend(c); }
@@ -581,7 +608,18 @@ fn scenario_paths(ctx: &mut Ctx, runner: &Runner, sc: usize, prop: &str) {
         if all_calls.iter().any(|c| c.depth >= 9) { ctx.count("depth-limit-reached"); }
         if all_calls.iter().any(|c| c.depth >= 1) { ctx.count("derived-routing"); }
         ctx.directive(&format!("trace {} {}", path.name(), fmt_calls(&mut it, &all_calls)));
-        let op_tail = format!("{} {} {}", path.name(), fmt_sizes(&sizes), inputs);
+        // the routing model is replayed on the events the late-data gate admitted (chunk by chunk)
+        let gate = runner.take_gate();
+        if gate.contains('d') { ctx.count("gate:run-with-dropped-late-events"); }
+        let (adm_inputs, adm_sizes) = if gate.chars().count() == events.len() {
+            let g: Vec<char> = gate.chars().collect();
+            let mut i = 0;
+            let mut szs = Vec::new();
+            for sz in &sizes { szs.push(g[i..i + sz].iter().filter(|c| **c == 'a').count()); i += sz; }
+            (it.evs(admitted(&events, &gate).iter()), szs)
+        } else { (inputs.clone(), sizes.clone()) };
+        gate_by_path.push((path, gate));
+        let op_tail = format!("{} {} {}", path.name(), fmt_sizes(&adm_sizes), adm_inputs);
         if prop == "C17" {
             let handed = fmt_handed(&mut it, &names, &all_calls);
             ctx.case(&format!("handed {}", op_tail), &handed);
@@ -593,6 +631,9 @@ fn scenario_paths(ctx: &mut Ctx, runner: &Runner, sc: usize, prop: &str) {
     if prop == "C16" {
         let r = outs_by_path.iter().map(|(p, o)| format!("{}={}", p.name(), o)).collect::<Vec<_>>().join(" / ");
         ctx.case(&format!("agree {}", inputs), &r);
+        // every entry point applies the same late-data gate: the verdicts per external event must be equal
+        let g = gate_by_path.iter().map(|(p, o)| format!("{}={}", p.name(), if o.is_empty() { "-" } else { o.as_str() })).collect::<Vec<_>>().join(" / ");
+        ctx.case(&format!("gate {}", inputs), &g);
         if !outs_by_path.iter().all(|(_, o)| o == "-") { ctx.count("agree:nonempty-output"); }
     }
 }
@@ -612,7 +653,7 @@ fn swap_group(kind: &str) -> Option<&'static [&'static str]> {
 fn edit_once(rng: &mut Rng, specs: &mut Vec<Spec>) -> &'static str {
     let n = specs.len();
     let i = rng.below(n as u64) as usize;
-    match rng.below(9) {
+    match rng.below(11) {
         0 => { // threshold change (same operation count)
             let j = (0..n).map(|o| (i + o) % n).find(|&j| ["filter", "femit", "having", "seq3", "proc1"].contains(&specs[j].kind.as_str()));
             match j {
@@ -679,6 +720,14 @@ fn edit_once(rng: &mut Rng, specs: &mut Vec<Spec>) -> &'static str {
             "add-stream"
         }
         7 => { if n > 1 { specs.remove(i); "remove-stream" } else { specs[i].c += 1; specs[i].d += 1; specs[i].n += 1; specs[i].corr = !specs[i].corr; "param" } }
+        9 | 10 => { // event-time settings of a stream: allowed lateness or out-of-orderness (same operation count)
+            let j = (0..n).map(|o| (i + o) % n).find(|&j| specs[j].kind.starts_with("wm"));
+            match j {
+                Some(j) if specs[j].kind == "wm" && rng.chance(2, 3) => { specs[j].d = if specs[j].d >= 2 { 0 } else { specs[j].d + 1 + rng.below(2) as i64 }; "wm-allowed-lateness" }
+                Some(j) => { specs[j].n = if specs[j].n >= 4 { 2 } else { specs[j].n + 1 }; "wm-out-of-order" }
+                None => { specs[i].kind = "wm".to_string(); "to-wm-stream" }
+            }
+        }
         _ => { // reordered declarations
             if n > 1 { let j = (i + 1) % n; specs.swap(i, j); "reorder" } else { specs[i].c += 1; specs[i].d += 1; specs[i].n += 1; specs[i].corr = !specs[i].corr; "param" }
         }
@@ -758,7 +807,9 @@ fn scenario_reload(ctx: &mut Ctx, runner: &Runner, sc: usize) {
     let ks: Vec<usize> = if heavy { dedup_usize(&[0, events.len() / 2, events.len()]) } else { (0..=events.len()).collect() };
     for &k in &ks {
         let mut live = match runner.load_program(&program1) { Ok(l) => l, Err(e) => { eprintln!("generator error: {}\n{}", e, vpl1); std::process::exit(3); } };
+        runner.take_gate();
         let (out_pre, calls_pre) = feed_all(&mut live, &events[..k]);
+        let gate_pre = runner.take_gate();
         let rep = timed("reload", || live.engine.reload(&program2));
         let rep = match rep {
             Err(e) => { ctx.case(&format!("reload {} {}", k, inputs), &format!("error:{}", e.replace('\n', " "))); continue; }
@@ -777,12 +828,19 @@ fn scenario_reload(ctx: &mut Ctx, runner: &Runner, sc: usize) {
         }
         let routes = live.engine.verif_routes();
         let (out_post, calls_post) = feed_all(&mut live, &events[k..]);
+        let gate_post = runner.take_gate();
+        if gate_pre.contains('d') || gate_post.contains('d') { ctx.count("gate:run-with-dropped-late-events"); }
+        // the routing model replays the admitted events
+        let adm_pre = admitted(&events[..k], &gate_pre);
+        let adm_post = admitted(&events[k..], &gate_post);
+        let k_adm = adm_pre.len();
+        let inputs_adm = it.evs(adm_pre.iter().chain(adm_post.iter()));
         if k == 0 { ctx.case("rrouter", &fmt_routes(&mut it, &routes)); }
         ctx.directive(&format!("trace pre {}", fmt_calls(&mut it, &calls_pre)));
         ctx.directive(&format!("trace post {}", fmt_calls(&mut it, &calls_post)));
         let names2: Vec<String> = p2.streams.iter().map(|d| d.name.clone()).collect();
         let res = format!("{} | {} | {}", it.evs(out_pre.iter()), it.evs(out_post.iter()), fmt_handed(&mut it, &names2, &calls_post));
-        ctx.case(&format!("reload {} {}", k, inputs), &res);
+        ctx.case(&format!("reload {} {}", k_adm, inputs_adm), &res);
         if !calls_post.is_empty() { ctx.count("reload:post-activity"); }
         if let Some(nv) = &never {
             let all: Vec<Event> = out_pre.iter().chain(out_post.iter()).cloned().collect();
@@ -791,7 +849,25 @@ fn scenario_reload(ctx: &mut Ctx, runner: &Runner, sc: usize) {
         if k == 0 {
             let mut f = runner.load_program(&program2).unwrap();
             let (o, _) = feed_all(&mut f, &events);
+            runner.take_gate();
             ctx.case(&format!("fresh0 {}", inputs), &format!("{} / {}", it.evs(out_post.iter()), it.evs(o.iter())));
+        }
+        // the late-data gate after the reload: the event-time settings of P' apply (as in a fresh engine of P'
+        // that saw the same events); comparable when the reload happens before any event, or when the
+        // watermark registrations (source, out-of-orderness) of P and P' are the same
+        if (k == 0 || wm_sources(&p1) == wm_sources(&p2)) && (!wm_sources(&p1).is_empty() || !wm_sources(&p2).is_empty()) {
+            let mut f = runner.load_program(&program2).unwrap();
+            let _ = feed_all(&mut f, &events[..k]);
+            let ref_pre = runner.take_gate();
+            let _ = feed_all(&mut f, &events[k..]);
+            let ref_gate = runner.take_gate();
+            let dash = |g: &String| if g.is_empty() { "-".to_string() } else { g.clone() };
+            // the trackers have seen the same events only if the same events were admitted before the reload
+            // (a dropped event is not observed; a source's first observation can lower the effective watermark)
+            if ref_pre == gate_pre {
+                ctx.case(&format!("gatepost {} {}", k, inputs), &format!("{} / {}", dash(&gate_post), dash(&ref_gate)));
+                if gate_post.contains('d') || ref_gate.contains('d') { ctx.count("gatepost:with-dropped-events"); }
+            } else { ctx.count("gatepost:not-comparable-different-admissions-before-reload"); }
         }
         // every stream of P' in isolation: the same stream of a FRESH engine of P' is handed (directly, through
         // the verif_invoke_stream hook: no routing, no cascade) exactly the events the real stream was handed -
@@ -807,7 +883,7 @@ fn scenario_reload(ctx: &mut Ctx, runner: &Runner, sc: usize) {
                     _ => true,
                 }
             };
-            let unchanged = p1.streams.iter().any(|d1| d1.name == d2.name && d1.body == d2.body && d1.subs == d2.subs)
+            let unchanged = p1.streams.iter().any(|d1| d1.name == d2.name && d1.body == d2.body && d1.subs == d2.subs && d1.resolved == d2.resolved)
                 && !d2.refs.iter().any(|n| decl_changed(n));
             let post: Vec<&verif::StreamCall> = calls_post.iter().filter(|c| c.stream == d2.name).collect();
             if post.is_empty() { continue; }
